@@ -6,6 +6,8 @@ from harness import simprops as SP
 from harness.impl import E_OPCOUNT
 
 ID = 'C08'
+BRIDGE_IMPORTS = 'From Eudoxia Require Import Model.SchedSrc.\n'
+BRIDGE = [('sched_naive', 'ext_sched_naive = sched_naive_src', 'reflexivity.'), ('sched_starter', 'ext_sched_starter = sched_starter_src', 'reflexivity.'), ('sched_overbook', 'ext_sched_overbook = sched_overbook_src', 'reflexivity.'), ('sched_priority', 'ext_sched_priority = sched_priority_src', 'reflexivity.'), ('sched_priority_pool', 'ext_sched_priority_pool = sched_priority_pool_src', 'reflexivity.')]
 MASK = S.M_DEC | S.M_RES
 ASSUMPTIONS = ['valid configuration: positive duration, tick rate, pool count and sizes; probabilities summing to one; '
                'overbook with overcommit; priority-pool on two pools']
